@@ -14,6 +14,114 @@ import (
 
 func (s *c12s) codeOf(x *c12Tx) common.Hash { return s.hashes[x.h] }
 
+// scriptedFreeze: "frozen assets do not move" for ALL THREE categories, by construction. Issuer 5, holder 6, receiver 3.
+// For a token the asset id IS the asset code; for category 2 / 3 the id is the hash of the issue tx, so a freeze lookup keyed by
+// the id instead of the code only shows on those. Every category is frozen ("true"), tried (transfer to an account, to a
+// contract, to 0x0, issue, replenish — all must be refused), unfrozen by a value that is not "true" (garbage / ""), moved,
+// frozen again, tried, unfrozen with "false", moved.
+func (s *c12s) scriptedFreeze() {
+	okC := 0
+	for lab, k := range s.codeKind {
+		if k == 1 {
+			okC = lab
+		}
+	}
+	type fa struct {
+		name string
+		cr   *c12Tx
+		is   *c12Tx
+		div  bool
+		repl bool
+	}
+	as := []*fa{
+		{name: "token", cr: s.txCreate(5, 1, true, true, 2, "false", "freeze:create:token"), div: true, repl: true},
+		{name: "non-fungible", cr: s.txCreate(5, 2, false, false, 0, "-", "freeze:create:non-fungible")},
+		{name: "common-divisible", cr: s.txCreate(5, 3, true, true, 2, "-", "freeze:create:common-divisible"), div: true, repl: true},
+		{name: "common-indivisible", cr: s.txCreate(5, 3, false, false, 0, "no", "freeze:create:common-indivisible")},
+	}
+	born := s.txCreate(5, 3, true, true, 2, "true", "freeze:create:common-frozen-at-birth")
+	blk := []*c12Tx{born}
+	for _, a := range as {
+		blk = append(blk, a.cr)
+	}
+	s.runBlock(blk)
+	if s.stop {
+		return
+	}
+	blk = []*c12Tx{s.txIssue(5, 6, s.codeOf(born), "s:10", 2, "freeze:issue:frozen-at-birth")}
+	for _, a := range as {
+		amt := "s:100"
+		if !a.div {
+			amt = "s:5"
+		}
+		a.is = s.txIssue(5, 6, s.codeOf(a.cr), amt, 2, "freeze:issue:"+a.name)
+		blk = append(blk, a.is)
+	}
+	s.runBlock(blk)
+	if s.stop {
+		return
+	}
+	id := func(a *fa) common.Hash {
+		if a.name == "token" {
+			return s.codeOf(a.cr)
+		}
+		return s.hashes[a.is.h2]
+	}
+	tries := func(tag string) []*c12Tx {
+		var out []*c12Tx
+		for _, a := range as {
+			out = append(out,
+				s.txTransferA(6, 3, id(a), "s:1", "freeze:"+tag+":transfer-to-account:"+a.name),
+				s.txTransferA(6, okC, id(a), "s:1", "freeze:"+tag+":transfer-to-contract:"+a.name),
+				s.txTransferA(6, 0, id(a), "s:1", "freeze:"+tag+":burn:"+a.name),
+				s.txTransferA(6, 3, id(a), "s:0", "freeze:"+tag+":zero-amount:"+a.name),
+				s.txIssue(5, 6, s.codeOf(a.cr), "s:3", 2, "freeze:"+tag+":issue:"+a.name))
+			if a.repl {
+				out = append(out, s.txReplenish(5, 6, s.codeOf(a.cr), id(a), "s:3", "freeze:"+tag+":replenish:"+a.name))
+			}
+		}
+		return out
+	}
+	setAll := func(vals []string, tag string) []*c12Tx {
+		var out []*c12Tx
+		for i, a := range as {
+			out = append(out, s.txModify(5, s.codeOf(a.cr), vals[i%len(vals)], "freeze:"+tag+":"+a.name))
+		}
+		return out
+	}
+	// freeze; the last tx of the same block already meets the frozen asset
+	s.runBlock(append(setAll([]string{"true"}, "set-true"), s.txTransferA(6, 3, id(as[2]), "s:1", "freeze:same-block-after-freeze:common-divisible")))
+	if s.stop {
+		return
+	}
+	s.runBlock(tries("frozen"))
+	if s.stop {
+		return
+	}
+	// any value other than "true" unfreezes
+	s.runBlock(setAll([]string{"TRUE", "yes", "1", ""}, "set-garbage"))
+	if s.stop {
+		return
+	}
+	s.runBlock(tries("after-garbage-value"))
+	if s.stop {
+		return
+	}
+	s.runBlock(setAll([]string{"true"}, "set-true-again"))
+	if s.stop {
+		return
+	}
+	s.runBlock(tries("frozen-again"))
+	if s.stop {
+		return
+	}
+	s.runBlock(setAll([]string{"false"}, "set-false"))
+	if s.stop {
+		return
+	}
+	s.runBlock(tries("after-false"))
+}
+
 // scripted: fixed witnesses (users 1..6; burn = 0; contracts 7 (stops) and 8 (reverts) by codeKind)
 func (s *c12s) scripted() {
 	okC, revC := 0, 0
@@ -445,7 +553,20 @@ func (s *c12s) genOne() *c12Tx {
 	}
 	class := "rnd:transfer"
 	var from, id int
-	if len(held) > 0 && r.Intn(10) > 0 {
+	// now and then a holding of an asset that is frozen by the generator's own records (all categories)
+	var heldFrozen [][2]int
+	for _, h := range s.held(true) {
+		if code, ok := s.gtCode(h[1]); ok {
+			if a := s.asset(code); a != nil && a.frozen && s.keys[h[0]] != nil {
+				heldFrozen = append(heldFrozen, h)
+			}
+		}
+	}
+	if len(heldFrozen) > 0 && r.Intn(5) == 0 {
+		h := heldFrozen[r.Intn(len(heldFrozen))]
+		from, id = h[0], h[1]
+		class = "rnd:transfer-of-frozen"
+	} else if len(held) > 0 && r.Intn(10) > 0 {
 		h := held[r.Intn(len(held))]
 		from, id = h[0], h[1]
 		if s.keys[from] == nil { // burn address / contract cannot sign
